@@ -12,6 +12,11 @@ pub fn exec_case(line: &str) -> Option<Vec<u64>> {
     match toks[0] {
         "PKT" => { let b = unhex(toks[1]); guarded(move || obs::run_packet(&b)) }
         "P12" => { let b = unhex(toks[1]); guarded(move || obs::run_packet_c12(&b)) }
+        "TSB" => { let b = unhex(toks[1]); guarded(move || obs::run_tsb(&b)) }
+        "TSU" => { let v: u64 = toks[1].parse().unwrap(); guarded(move || obs::run_tsu(v)) }
+        "TSW" => { let a: u64 = toks[1].parse().unwrap(); let c: u64 = toks[2].parse().unwrap(); guarded(move || obs::run_tsw(a, c)) }
+        "CRP" => { let a: u64 = toks[1].parse().unwrap(); let c: u64 = toks[2].parse().unwrap(); guarded(move || obs::run_crp(a, c)) }
+        "CRS" => { let b = unhex(toks[1]); guarded(move || obs::run_crs(&b)) }
         "AF" => { let b = unhex(toks[1]); guarded(move || obs::run_af(&b)) }
         k => panic!("unknown case kind {}", k),
     }
